@@ -100,6 +100,8 @@ type Peer struct {
 	PeerFinished      bool // a Finished message from the peer arrived under protection and verified
 	SentFinished      bool
 	PeerIVs           [][]byte // explicit IV / nonce of every protected record received
+	RawIn             [][]byte // every record received, as on the wire (header and body)
+	RecLens           []int    // plaintext length of every protected record received
 	Fragment          int      // >0: cut outgoing handshake messages into records of at most this many bytes
 }
 
@@ -253,10 +255,12 @@ func (p *Peer) ReadRecord() (typ byte, data []byte, err error) {
 	}
 	typ = hdr[0]
 	vers := uint16(hdr[1])<<8 | uint16(hdr[2])
+	p.RawIn = append(p.RawIn, append(append([]byte{}, hdr...), body...))
 	if p.Rd.On {
 		if body, err = p.open(typ, vers, body); err != nil {
 			return typ, nil, err
 		}
+		p.RecLens = append(p.RecLens, len(body))
 	}
 	return typ, body, nil
 }
